@@ -34,6 +34,9 @@ type Builder struct {
 	Class    Class
 	MaxDepth int
 	Variants map[string][]reflect.Type // interface name → implementing types
+	// Types: every named type of the package (by name); lets the builder find the sum type behind
+	// a defined type (`type OpOK T0` has T0's fields but not its Set<Variant> methods).
+	Types map[string]reflect.Type
 	// TimeFormat: the one time format of the document ("date-time" default, "date", "time"): values are
 	// generated at that format's resolution.
 	TimeFormat string
@@ -319,6 +322,17 @@ func (b *Builder) fill(t *rapid.T, v reflect.Value, depth int) {
 				val.Set(p)
 			}
 			return
+		}
+	}
+	// a defined type over a sum type: build the sum, convert
+	if rt.Kind() == reflect.Struct && b.Types != nil {
+		if f, ok := rt.FieldByName("Type"); ok && f.Type.Kind() == reflect.String && strings.HasSuffix(f.Type.Name(), "Type") && f.Type.Name() != rt.Name()+"Type" {
+			if base, ok := b.Types[strings.TrimSuffix(f.Type.Name(), "Type")]; ok && base != rt && base.ConvertibleTo(rt) && len(sumSetters(base)) > 0 {
+				sv := reflect.New(base).Elem()
+				b.fill(t, sv, depth)
+				v.Set(sv.Convert(rt))
+				return
+			}
 		}
 	}
 	if setters := sumSetters(rt); len(setters) > 0 {
